@@ -411,8 +411,12 @@ pub fn run(tier: Tier) -> RunOutcome {
             } else {
                 // what it reports when it stops there: the reference run tells
                 // whether another verdict was reached first
-                let ref_continued = rtr.boundaries.len() > tr.boundaries.len()
-                    || rtr.boundaries.get(last).map(|b| b.proceeded).unwrap_or(false);
+                // the boundary at which the limited run decided to stop: the first one from j
+                // on after which it did no more numerical work (the record made after the
+                // loop, if any, follows it)
+                let d = (j..=last).find(|&i| !tr.boundaries[i].proceeded).unwrap_or(last);
+                let ref_continued = rsnap.iterations > snap.iterations
+                    || rtr.boundaries.get(d).map(|b| b.proceeded).unwrap_or(false);
                 if ref_continued {
                     probe("cut_by_limit");
                     if !is_maxtime_family(snap.status) {
